@@ -19,6 +19,7 @@ import (
 	"sync"
 	"sync/atomic"
 	"time"
+	"verif/monlog"
 
 	"github.com/scionproto/scion/control/beacon"
 	"github.com/scionproto/scion/pkg/addr"
@@ -800,7 +801,7 @@ func runPathHistory(r *mon.Run, pool []*variant, ops []pathOp, mode dbMode, reco
 	}
 	// No deadline: with a cancellable context the sqlite driver starts a
 	// goroutine per row; hangs are the driver script's watchdog's business.
-	ctx := context.Background()
+	ctx := monlog.Alternate() // log level is a configuration dimension
 	pr := &pathRun{rc: recorder{r, record}, ctx: ctx, db: backend, rw: backend,
 		model: storeref.NewPathStore(), pool: pool, reader: mode.reader}
 	var wg sync.WaitGroup
